@@ -217,13 +217,46 @@ def _case(seed: int) -> Dict[str, Any]:
     return {"n_checks": n, "fails": fails, "nontrivial": n > 0, "sample": {"seed": seed, "events": n}, "clauses": {"links_match_oracle": 1, "cpu_gpu_pairs": 1}}
 
 
+def _loaded_case(k: int) -> Dict[str, Any]:
+    """Full load (the last profiler step is trimmed): the links of the LOADED frame are still mutual and never point at a row that
+    was dropped.  The crafted part: a synchronising call on a second host thread that begins before the last step and whose
+    device-side record (stream -1, Context / Event Sync) is stamped inside it."""
+    from hv import gen, rt, synth
+
+    per_rank = gen.gen_trace_set(40_000 + k, n_ranks=1, steps=3, n_streams=2, p_sync=0.2, p_orphan_kernel=0.1, after_last=True)
+    evs = per_rank[0]
+    steps = sorted((e for e in evs if str(e.get("name", "")).startswith("ProfilerStep#")), key=lambda e: e["ts"])
+    last_start = steps[-1]["ts"]
+    c = 900_000 + k
+    evs.append(synth.launch(last_start - 10, 20, c, tid=9, name="cudaDeviceSynchronize"))
+    evs.append({"ph": "X", "cat": "cuda_sync", "name": ["Context Sync", "Event Sync"][k % 2], "pid": 0, "tid": 0, "ts": last_start + [0, 2, 7][k % 3], "dur": 3, "args": {"correlation": c, "stream": -1}})
+    fails: List[Dict[str, Any]] = []
+    inp = {"case": k, "events": evs}
+    n = 0
+    with rt.trace_dir(per_rank) as d:
+        try:
+            t = rt.lib(fails, "load_traces", inp, rt.load_trace, d, True, use_multiprocessing=False)
+        except rt.LibFailure:
+            return {"n_checks": 1, "fails": fails, "nontrivial": True, "clauses": {}}
+        df = t.get_trace(0)
+        link = {int(i): int(v) for i, v in zip(df["index"], df["index_correlation"])}
+        n = len(link)
+        dangling = {i: v for i, v in link.items() if v > 0 and v not in link}
+        one_way = {i: v for i, v in link.items() if v > 0 and v in link and link[v] != i}
+        if dangling or one_way:
+            fails.append({"what": "links_of_the_loaded_frame_are_mutual_and_closed", "input": inp, "observed": {"link_to_a_dropped_row": dict(list(dangling.items())[:5]), "not_mutual": dict(list(one_way.items())[:5])},
+                          "expected": "every positive link names a loaded row that links back"})
+    return {"n_checks": n, "fails": fails, "nontrivial": n > 0, "sample": {"loaded_case": k}, "clauses": {"links_of_the_loaded_frame_are_mutual_and_closed": 1}}
+
+
 def bounded(ctx):
     from hv import rt
 
     n = 60 if not ctx.thorough else 800
-    res = rt.pmap(_case, [ctx.seed * 7919 + i for i in range(n)], ctx.procs)
+    res = rt.pmap(_case, [ctx.seed * 7919 + i for i in range(n)], ctx.procs) + rt.pmap(_loaded_case, list(range(6 if not ctx.thorough else 60)), ctx.procs)
     return rt.summarise(res, f"{PROP}.bounded", f"{n} generated traces (1-2 ranks, missing launches/kernels, orphan kernels, sync records on stream -1 with and without "
-                        "correlation id, .json/.json.gz) parsed through Trace.parse_traces; oracle pairs events by correlation id from the JSON")
+                        "correlation id, .json/.json.gz) parsed through Trace.parse_traces; oracle pairs events by correlation id from the JSON; plus fully loaded (trimmed) traces with a "
+                        "synchronisation whose call and device-side record straddle the start of the dropped step: links stay mutual and closed")
 
 
 def units(ctx):
